@@ -1086,9 +1086,7 @@ struct const_subarray : array_types<T, D, ElementPtr, Layout> {
  public:
 	const_subarray(const_subarray&&) noexcept = default;  // lints(readability-redundant-access-specifiers)
 
-	constexpr auto       elements()      & ->       elements_range { return elements_aux_(); }
-	constexpr auto       elements()     && ->       elements_range { return elements_aux_(); }
-	constexpr auto       elements() const&                         { return const_elements_range(this->base(), this->layout()); }
+	constexpr auto       elements() const&                         { return const_elements_range(this->base(), this->layout()); }  // the mutable overloads live in subarray
 	constexpr auto const_elements() const  -> const_elements_range { return elements_aux_(); }
 
 	constexpr auto hull() const -> std::pair<element_const_ptr, size_type> {
@@ -1988,6 +1986,10 @@ class subarray : public const_subarray<T, D, ElementPtr, Layout> {
 	constexpr auto home()     && { return this->home_aux_(); }
 	constexpr auto home()      & { return this->home_aux_(); }
 
+	constexpr auto elements() const& { return static_cast<const_subarray<T, D, ElementPtr, Layout> const&>(*this).elements(); }
+	constexpr auto elements()     && { return typename const_subarray<T, D, ElementPtr, Layout>::elements_range(this->base_, this->layout()); }
+	constexpr auto elements()      & { return typename const_subarray<T, D, ElementPtr, Layout>::elements_range(this->base_, this->layout()); }
+
 	template<class It> constexpr auto assign(It first) & -> It { adl_copy_n(first, this->size(), begin()); std::advance(first, this->size()); return first; }
 	template<class It> constexpr auto assign(It first)&& -> It { return assign(first);}
 
@@ -2144,6 +2146,10 @@ class subarray : public const_subarray<T, D, ElementPtr, Layout> {
 		this->elements() = std::move(other).elements();
 		return *this;
 	}
+
+	template<class TT, class... As>
+	constexpr
+	auto operator=(subarray<TT, D, As...>&& other) && -> subarray& { operator=(std::move(other)); return *this; }  // keeps the source a (mutable) subarray, so that element-moving views are moved from
 
 	// template<class TT, class... As>
 	// constexpr
@@ -2961,9 +2967,7 @@ struct const_subarray<T, 1, ElementPtr, Layout>  // NOLINT(fuchsia-multiple-inhe
 	constexpr auto elements_aux_() const {return elements_range{this->base_, this->layout()};}
 
  public:
-	constexpr auto  elements()      & ->       elements_range {return elements_aux_();}
-	constexpr auto  elements()     && ->       elements_range {return elements_aux_();}
-	constexpr auto  elements() const& -> const_elements_range {return const_elements_range{this->base(), this->layout()};}  // TODO(correaa) simplify
+	constexpr auto  elements() const& -> const_elements_range {return const_elements_range{this->base(), this->layout()};}  // TODO(correaa) simplify  // the mutable overloads live in subarray
 
 	constexpr auto celements() const  -> const_elements_range {return elements_aux_();}
 
